@@ -333,8 +333,92 @@ def _p1(ctx, R):
                           "%s switches namespace_manager.default and can leave on %s without restoring it: a rejected input leaves the process under the reader's naming policy" % (f.qualname, what))
             else:
                 R.ok("P1", "%s restores the policy on all exits" % f.qualname, f.loc(sets[0]))
+    # the same switch written as a `with` block: the context manager's class (or @contextmanager generator) must save, set and
+    # restore; Python runs __exit__ on every way out of the block
+    cms = _policy_context_managers(P)
+    for rel in PARSER_MODULES:
+        mod = P.module(rel)
+        for f in mod.all_funcs():
+            for w in walk_local(f.node):
+                if not isinstance(w, ast.With):
+                    continue
+                for item in w.items:
+                    c = item.context_expr
+                    if not isinstance(c, ast.Call):
+                        continue
+                    nm = c.func.attr if isinstance(c.func, ast.Attribute) else (c.func.id if isinstance(c.func, ast.Name) else None)
+                    if nm not in cms:
+                        continue
+                    n += 1
+                    problem = cms[nm]
+                    if problem:
+                        R.bad("P1", "%s|with %s" % (f.key, nm), f.loc(w),
+                              "%s switches the naming policy through `%s`, whose context manager %s: a rejected input leaves the process under the reader's naming policy"
+                              % (f.qualname, short(c, 50), problem))
+                    else:
+                        R.ok("P1", "%s switches the policy in a with block whose manager restores it on exit" % f.qualname, f.loc(w))
     R.count("policy switches (P1)", n)
     R.floor("policy switches (P1)", 2)
+
+
+def _policy_context_managers(P):
+    """{callable name: None | what is wrong} for every way the code base offers to switch `<manager>.default` for the length of a with
+    block: classes with __enter__/__exit__, functions that return an instance of one, @contextmanager generators"""
+    out = {}
+
+    def is_default(t):
+        return isinstance(t, ast.Attribute) and t.attr == "default"
+    classes = {}
+    for rel, mod in sorted(P.modules.items()):
+        for cname, ci in mod.classes.items():
+            en, ex = ci.methods.get("__enter__"), ci.methods.get("__exit__")
+            if en is None or ex is None:
+                continue
+            sets = [a for a in walk_local(en.node) if isinstance(a, ast.Assign) and any(is_default(t) for t in a.targets)]
+            if not sets:
+                continue
+            problem = None
+            # saved before it is set
+            saves = [a for a in walk_local(en.node) if isinstance(a, ast.Assign) and is_default(a.value) and isinstance(a.targets[0], ast.Attribute)
+                     and norm(a.targets[0].value) == "self"]
+            if not saves or not any(a.lineno < sets[0].lineno for a in saves):
+                problem = "does not save the previous policy before setting the new one"
+            else:
+                field = saves[0].targets[0].attr
+                restores = [a for a in ex.node.body if isinstance(a, ast.Assign) and any(is_default(t) for t in a.targets)
+                            and norm(a.value) == "self.%s" % field]
+                if not restores:
+                    problem = "does not put the saved policy back in __exit__ on every path"
+                elif any(isinstance(r, ast.Return) and r.value is not None and not (isinstance(r.value, ast.Constant) and not r.value.value) for r in walk_local(ex.node)):
+                    problem = "may swallow the exception in __exit__"
+                elif any(isinstance(x, (ast.Return, ast.Raise)) and x.lineno < restores[0].lineno for x in walk_local(ex.node)):
+                    problem = "can leave __exit__ before the policy is put back"
+            classes[cname] = problem
+            out[cname] = problem
+    for rel, mod in sorted(P.modules.items()):
+        funcs = list(mod.functions.values()) + [f for c in mod.classes.values() for f in c.all_funcs()]
+        for f in funcs:
+            body = [s_ for s_ in f.node.body if not (isinstance(s_, ast.Expr) and isinstance(s_.value, ast.Constant))]
+            if len(body) == 1 and isinstance(body[0], ast.Return) and isinstance(body[0].value, ast.Call):
+                c = body[0].value
+                nm = c.func.attr if isinstance(c.func, ast.Attribute) else (c.func.id if isinstance(c.func, ast.Name) else None)
+                if nm in classes:
+                    out[f.name] = classes[nm]
+            if any(norm(d).endswith("contextmanager") for d in f.node.decorator_list):
+                sets = [a for a in walk_local(f.node) if isinstance(a, ast.Assign) and any(is_default(t) for t in a.targets)]
+                if not sets:
+                    continue
+                ys = [y for y in walk_local(f.node) if isinstance(y, ast.Yield)]
+                problem = None
+                tries = [t for t in walk_local(f.node) if isinstance(t, ast.Try) and t.finalbody and any(y is x for y in ys for s_ in t.body for x in ast.walk(s_))]
+                saved = [a for a in walk_local(f.node) if isinstance(a, ast.Assign) and is_default(a.value) and isinstance(a.targets[0], ast.Name)]
+                if not saved or saved[0].lineno > sets[0].lineno:
+                    problem = "does not save the previous policy before setting the new one"
+                elif not tries or not any(isinstance(a, ast.Assign) and any(is_default(t) for t in a.targets) and norm(a.value) == saved[0].targets[0].id
+                                          for a in tries[0].finalbody):
+                    problem = "does not put the saved policy back in a finally clause around its yield"
+                out[f.name] = problem
+    return out
 
 
 def _p3(ctx, R):
